@@ -130,6 +130,9 @@ def _h2_open(fb, path, ver, pr, ex, extra_key=None):
         hdrs.append((b"sec-websocket-protocol", b", ".join(pr)))
     if ex:
         hdrs.append((b"sec-websocket-extensions", ex))
+    if extra_key:
+        # not needed on HTTP/2, but allowed (a proxy translating an HTTP/1.1 handshake would carry it along)
+        hdrs.append((b"sec-websocket-key", extra_key))
     return client_preface(fb, {}) + fb.headers(1, hdrs, end_stream=False)
 
 
@@ -140,7 +143,7 @@ def _hs_case(rng, n, ver, key, conn, upg, hv, pr, ex, dec):
     apps = {"default": [["recv_until_end"], ["respond", 200, [], b"plain-http"]], "websocket": script}
     if hv == "2":
         fb = FrameBuilder()
-        client = [["feed", _h2_open(fb, path, ver, pr, ex)], ["settle"]]
+        client = [["feed", _h2_open(fb, path, ver, pr, ex, extra_key=KEY if key in ("valid", "dup") and n % 3 == 0 else None)], ["settle"]]
         return {"family": "hs.h2", "backends": ["asyncio", "trio"], "config": {"keep_alive_timeout": 5000}, "conn": {},
                 "apps": apps, "client": client, "reactor": {"kind": "h2", "credit": "auto"}, "truth": truth,
                 "sched": {"seed": rng.randrange(1 << 30)}, "horizon": 50.0}
